@@ -22,3 +22,18 @@ RESIDUAL = "finiteness of spectrum / rate / HOM values on constructed setups is 
 def families(tier, seed):
     n = 1500 if tier == "quick" else 20000
     return [("config", seed, n, ["malformed"])]
+
+
+# ------------------------------------------------------------------------------------------------------------------------------
+# COMPOSED model, part 2 (branch compose; Model/ComposeAuto.lean, notes/compose.md) — purely additive block.
+OPS = set(OPS) | {'cmpa_from_config'}
+TOL = dict(TOL)
+TOL.update({'cmpa_from_config': ('ulp', 4)})
+RULE += " | family compose/c17: the config family's malformed stream through the same op (outcome class incl. PANIC and every field on OK, from the descriptor alone)"
+LEVEL_NOTE += ' COMPOSED MODEL part 2 (notes/compose.md): the cmpa_* K ops carry NO value computed by the real crate — only the configuration descriptor (what is written into the JSON) or the primitive setup; Spdc.Model.ComposeAuto computes the Snell inverse, the poling sign, the optimum poling period, the optimum crystal angle (Nelder–Mead model NM1D.run on cost closures built from the composed Δk, incl. the simplex nested in the angle cost), the optimum idler and the optimal waist positions itself (`composedExt`), then try_as_spdc / try_as_optimum on top. Observed: outcome classes (OK / ERR:class / PANIC) identical on every case, every optimiser result bit-for-bit (0 ulp; no divergence of a simplex path in 3 seeds × 1500 cases per mode), deff ≤ 2 ulp (the Cfg layer folds PICO/V first).'
+CHECKER_MODULES = list(globals().get("CHECKER_MODULES", [])) + ["Spdc.Real.ComposeLemmas", "Spdc.Real.ComposeAutoLemmas"]
+_families_before_compose_auto = families
+
+
+def families(tier, seed):
+    return _families_before_compose_auto(tier, seed) + [("compose", seed, 1500 if tier == "quick" else 20000, ["c17"])]
